@@ -25,7 +25,7 @@ RULE = ("scenes from the seed: 6..8 (thorough 6..10) cells per axis; per axis a 
         "placed PML and of boundaries placed directly for every axis x direction x thickness 1..4 vs model iface. "
         "non-trivial = every case (all have a PML).")
 
-PAIRS = [("pml", "pml"), ("pml", "pml"), ("pml", "none"), ("none", "pml"), ("pml", "pec"), ("pec", "pml"), ("pml", "pmc"),
+PAIRS = [("pml", "pml"), ("pml", "pml"), ("pml", "pml"), ("pml", "pml"), ("pml", "none"), ("none", "pml"), ("pml", "pec"), ("pec", "pml"), ("pml", "pmc"),
          ("pmc", "pml"), ("periodic", "periodic"), ("pec", "pec"), ("pmc", "pmc"), ("pec", "pmc"), ("none", "none")]
 
 
@@ -217,7 +217,7 @@ def property_fails(c):
     return verdict(c, worst, scale, bad, t_ok)
 
 
-def full_backward_fails(c):
+def full_backward_fails(c, strict=False):
     """the public route: run_fdtd (reversible gradient config; it resets the fields, so the run starts from zero and is
     driven by a CW source) then full_backward to an intermediate step k and to step 0, compared with the state that
     step-by-step forward() reaches at step k resp. with the zero initial state"""
@@ -240,7 +240,7 @@ def full_backward_fails(c):
     Ef, Hf = fields(st)
     scale = max(float(np.abs(Ef).max()), float(np.abs(Hf).max()))
     if not scale > 1e-6:
-        return f"vacuous scenario: the run produced no field (max {scale:.2e})"
+        return None if not strict else f"vacuous scenario: the run produced no field (max {scale:.2e})"
     for target, (Et, Ht) in ((k, (Ek, Hk)), (0, (z, z)))[:c.get("targets", 2)]:
         s0 = f.full_backward(state=st, objects=sc.objects, config=sc.config, key=key, record_detectors=False,
                              reset_fields=True, start_time_step=target)
@@ -375,6 +375,10 @@ def one_case(ctx, c, sample=False, k=True):
 
 
 FORCED = [
+    # PML on all six faces with mixed thicknesses: every edge and corner overlap
+    dict(shape=[8, 7, 7], faces={k: "pml" for k in Y.FACES},
+         spec={"min_x": 2, "max_x": 3, "min_y": 1, "max_y": 2, "min_z": 3, "max_z": 1}, widths=None,
+         source=dict(kind="dipole_m", pol=0, axis=0, direction="+", amp=1.3, pos=[3, 2, 4]), eps_tier=1, mu_tier=0, T=5),
     dict(shape=[7, 6, 6], faces={"min_x": "pml", "max_x": "pml", "min_y": "periodic", "max_y": "periodic", "min_z": "pec", "max_z": "pml"},
          spec={"min_x": 2, "max_x": 1, "max_z": 3}, widths=None,
          source=dict(kind="dipole_e", pol=2, axis=0, direction="+", amp=1.0, pos=[3, 2, 1]), eps_tier=3, mu_tier=3, T=6),
@@ -384,7 +388,7 @@ FORCED = [
 def run(ctx):
     n = ctx.scale(2, 14)
     cases = []
-    for fc in FORCED:
+    for fc in (FORCED if ctx.thorough else FORCED[:1]):
         c = gen_case(ctx.rng, ctx.thorough)
         c.update(fc)
         cases.append(c)
@@ -409,14 +413,18 @@ def run(ctx):
         c["kind"] = "full_backward"
         c["T"] = min(c["T"], 6)
         if c["source"] is None:
-            c["source"] = dict(kind="dipole_e", pol=1, axis=0, direction="+", amp=1.0,
-                               pos=[c["spec"].get(Y.FACES[2 * a], 0) for a in range(3)])
+            c["source"] = dict(kind="dipole_e", pol=1, axis=0, direction="+", amp=1.0, pos=[0, 0, 0])
+        # keep the source off the PEC/PMC wall layers (a tangential dipole there is zeroed: nothing would be radiated)
+        lo = [max(1, c["spec"].get(Y.FACES[2 * a], 0)) for a in range(3)]
+        hi = [min(c["shape"][a] - 2, c["shape"][a] - c["spec"].get(Y.FACES[2 * a + 1], 0) - 1) for a in range(3)]
+        c["source"]["pos"] = [ctx.rng.randint(lo[a], max(lo[a], hi[a])) for a in range(3)]
         c["source"]["profile"] = "cw"
         c["targets"] = ctx.scale(1, 2)   # quick: only the intermediate step (each target is one more jit compilation)
-        d = full_backward_fails(c)
+        d = full_backward_fails(c, strict=True)
         ctx.impl_property_evals += 1
-        ctx.case(nontrivial=("full_backward", c["seed"]), route="run_fdtd+full_backward")
-        if d:
+        vac = bool(d) and d.startswith("vacuous")
+        ctx.case(nontrivial=None if vac else ("full_backward", c["seed"]), route="run_fdtd+full_backward", route_vacuous=vac)
+        if d and not vac:
             ctx.violation(c, d)
 
 
